@@ -11,6 +11,7 @@ import (
 	"hash/fnv"
 	"io"
 	"os"
+	"runtime"
 	"strings"
 	"testing/iotest"
 	"time"
@@ -173,16 +174,57 @@ func runArea(cfg *config, a *area, s *sink) error {
 	}
 	if a.corpus != nil {
 		for _, op := range a.corpus(cfg) {
-			s.emit(cfg.area, op, safeExec(a, cfg, op))
+			s.emit(cfg.area, op, guardedExec(a, cfg, op))
 			s.count("corpus")
 		}
 	}
 	r := newRng(cfg.seed)
 	for i := 0; i < cfg.n; i++ {
 		op := a.gen(cfg, r, i, s)
-		s.emit(cfg.area, op, safeExec(a, cfg, op))
+		s.emit(cfg.area, op, guardedExec(a, cfg, op))
 	}
 	return nil
+}
+
+// runaway: a call that never returned is still running in its goroutine and may be allocating
+// without bound; once that has happened in an area where it can, nothing more is executed (the
+// remaining cases are answered "hang-skipped") so that the run ends before the memory does.
+var runaway bool
+
+func guardedExec(a *area, cfg *config, op string) string {
+	if runaway {
+		return "hang-skipped"
+	}
+	out := safeExec(a, cfg, op)
+	if out == "hang" && (cfg.area == "GM" || cfg.area == "M4") {
+		runaway = true
+	}
+	return out
+}
+
+// waitOrRunaway waits for a result with a deadline, and gives up early when the heap has grown by
+// more than 3 GiB since the call began (a loop that appends for ever fills the memory long before
+// any deadline).
+func waitOrRunaway(ch <-chan string, limit time.Duration) string {
+	var ms runtime.MemStats
+	runtime.ReadMemStats(&ms)
+	base := ms.HeapAlloc
+	deadline := time.After(limit)
+	tick := time.NewTicker(100 * time.Millisecond)
+	defer tick.Stop()
+	for {
+		select {
+		case r := <-ch:
+			return r
+		case <-deadline:
+			return "hang"
+		case <-tick.C:
+			runtime.ReadMemStats(&ms)
+			if ms.HeapAlloc > base+3<<30 {
+				return "hang"
+			}
+		}
+	}
 }
 
 func main() {
